@@ -170,6 +170,9 @@ class MultiClientPortCfg:
             raise MultiClientCfgError('setting "claim_granting_reply_value" must not be empty')
         if not self.release_event_name:
             raise MultiClientCfgError('setting "release_event_name" must not be empty')
+        if self.release_event_name == self.claim_event_name:
+            raise MultiClientCfgError('settings "claim_event_name" and "release_event_name" '
+                                      'must name different events')
 
     def __str__(self):
         """Stringify the dataclass items as a human friendly readable textblock."""
